@@ -6,6 +6,6 @@ tbl = subprocess.run([os.path.join(ROOT, "tools", "collect_seeded.py"), "--table
 tbl = "\n".join(l for l in tbl.splitlines() if l.startswith("|"))
 p = os.path.join(ROOT, "DESIGN.md")
 s = open(p).read()
-s = re.sub(r"<!-- SEEDED-TABLE -->.*?(?=\n## 7\. )", "<!-- SEEDED-TABLE -->\n" + tbl + "\n", s, flags=re.S)
+s = re.sub(r"<!-- SEEDED-TABLE -->.*?(?=\n## 7\. )", lambda m: "<!-- SEEDED-TABLE -->\n" + tbl + "\n", s, flags=re.S)
 open(p, "w").write(s)
 print("table rows:", tbl.count("\n") - 1)
